@@ -63,7 +63,8 @@ CandsOf(F, st) ==
       Ed == {h \in 1..NSub(F) : st[h] = "edge"}
   IN UNION {IF In \cup E = {} THEN {0} ELSE Finest(F, In \cup E) : E \in SUBSET Ed}
 StatusVec(F, lat, lon) == [h \in 1..NSub(F) |-> Status(SG(F, h), lat, lon)]
-Cands(F, q) == CandsOf(F, StatusVec(F, QLat(F, q), QLon(F, q)))
+\* (set comprehension over a singleton: the position is evaluated once)
+Cands(F, q) == UNION {CandsOf(F, StatusVec(F, ll[1], ll[2])) : ll \in {<<QLat(F, q), QLon(F, q)>>}}
 
 \* (v - lo) / d in cells, d in 0.001": exact when the quotient is an integer, else truncated at 1e-20
 \* (requires d < 200000 or d a multiple of 100)
@@ -202,30 +203,38 @@ Init == /\ file \in Files /\ phase = "closed" /\ call = "" /\ qq = NoQ /\ method
         /\ cell = NoCell /\ reads = <<>> /\ res = ""
 ReadFile == /\ phase = "closed" /\ phase' = "open"
             /\ UNCHANGED <<file, call, qq, method, tgt, cell, reads, res>>
+\* the caller fixes a position (no library code runs)
+Choose == /\ phase = "open" /\ phase' = "chosen" /\ qq' \in Queries(file)
+          /\ UNCHANGED <<file, call, method, tgt, cell, reads, res>>
 Begin(kind, q, m) ==
-  /\ phase = "open" /\ call' = kind /\ qq' = q /\ method' = m /\ reads' = <<>>
+  /\ phase = "chosen" /\ call' = kind /\ qq' = q /\ method' = m /\ reads' = <<>>
   /\ \E h \in Cands(file, q) :
         /\ tgt' = h
         /\ IF h = 0 THEN /\ res' = (IF kind = "t2d" THEN "raised" ELSE "none")
-                         /\ phase' = "open" /\ cell' = NoCell
+                         /\ phase' = "done" /\ cell' = NoCell
            ELSE /\ res' = "" /\ phase' = "reading"
                 /\ \E p \in {Loc(file, q, h)} : \E rc \in Touched(SG(file, h), p) :
                       cell' = [row |-> rc[1], col |-> rc[2]]
   /\ UNCHANGED file
-Interpolate == \E q \in Queries(file), m \in Methods : Begin("interp", q, m)
-Transform2D == \E q \in Queries(file), m \in Methods : Begin("t2d", q, m)
+Interpolate == /\ call = ""
+               /\ \E m \in Methods : Begin("interp", qq, m)
+Transform2D == /\ call = ""
+               /\ \E m \in Methods : Begin("t2d", qq, m)
 Plan == ReadSeq(Variant, file, tgt, cell.row, cell.col, method)
 ReadNode == /\ phase = "reading" /\ Len(reads) < Len(Plan)
             /\ reads' = Append(reads, Plan[Len(reads) + 1])
             /\ UNCHANGED <<file, phase, call, qq, method, tgt, cell, res>>
 Return == /\ phase = "reading" /\ Len(reads) = Len(Plan)
-          /\ phase' = "open" /\ res' = "value"
+          /\ phase' = "done" /\ res' = "value"
           /\ UNCHANGED <<file, call, qq, method, tgt, cell, reads>>
-Next == ReadFile \/ Interpolate \/ Transform2D \/ ReadNode \/ Return
+\* the call has returned: the grid object is unchanged and ready for the next call (no state is kept)
+Forget == /\ phase = "done" /\ phase' = "open" /\ call' = "" /\ qq' = NoQ /\ method' = "" /\ tgt' = 0
+          /\ cell' = NoCell /\ reads' = <<>> /\ res' = "" /\ UNCHANGED file
+Next == ReadFile \/ Choose \/ Interpolate \/ Transform2D \/ ReadNode \/ Return \/ Forget
 Spec == Init /\ [][Next]_vars
 
 (* ------------------------------ properties ----------------------------- *)
-TypeOK == /\ phase \in {"closed", "open", "reading"} /\ call \in {"", "interp", "t2d"}
+TypeOK == /\ phase \in {"closed", "open", "chosen", "reading", "done"} /\ call \in {"", "interp", "t2d"}
           /\ tgt \in 0..NSub(file) /\ res \in {"", "none", "raised", "value"}
 \* "computed only from that sub-grid's own nodes ..."
 ReadsOwnNodes == \A k \in 1..Len(reads) : reads[k] \in OwnNodes(file, tgt)
@@ -239,7 +248,7 @@ ValueOnlyInside == res = "value" => tgt # 0 /\ Len(reads) = Len(Plan)
 \* the finest-spacing rule picks the innermost sub-grid of a nested family: no child of the chosen
 \* sub-grid contains the position strictly
 FinestIsDeepest ==
-  (call # "" /\ tgt # 0) =>
+  (phase = "reading" /\ reads = <<>>) =>          \* evaluated once per call, right after the choice
      \A k \in 1..NSub(file) : SG(file, k).parent = SG(file, tgt).name =>
         Status(SG(file, k), QLat(file, qq), QLon(file, qq)) # "in"
 \* the two oracles agree where both apply: the blend reproduces fields of degree <= (1,1) and node values
